@@ -58,6 +58,7 @@ inductive ConnErr where
   | unknownInMulti       -- "ERR unknown command '…', with args beginning with: "
   | noperm               -- "NOPERM this user has no permissions to access the channel …"
   | parse                -- `Command::from_resp_zero_copy` failed (arity, bad integer, …)
+  | protocol             -- "ERR protocol error": `RespCodec::parse` failed (the read buffer is dropped)
   deriving DecidableEq, Repr
 
 inductive Reply (ρ : Type) where
@@ -80,6 +81,10 @@ inductive Input (κ γ : Type) where
   | connLocal (c : γ)    -- AUTH, ACL …, HELLO, RESET, CLIENT …: answered by the connection
                          --   outside MULTI, but QUEUED inside MULTI and replayed through `exec`
   | parseErr             -- `Err(e)` of `from_resp_zero_copy`
+  | protoErr             -- `Err(e)` of `RespCodec::parse` (`CommandResult::ParseError`): the connection
+                         --   answers `-ERR protocol error`, drops what is left of the read buffer and
+                         --   goes on; `try_execute_command` never reaches the transaction state, so
+                         --   inside MULTI the transaction is NOT flagged (Redis closes the connection)
   deriving DecidableEq, Repr
 
 /-- `in_transaction`, `transaction_queue`, `transaction_errors`, `watched_keys` -/
@@ -152,6 +157,7 @@ def step [DecidableEq ρ] (B : Backend σ κ γ ρ) (sched : List (List γ)) (t 
       | .connLocal c => ({ t with queue := t.queue ++ [c] }, s, .queued)
       | .unknown _ => ({ t with errors := true }, s, .err .unknownInMulti)
       | .parseErr => ({ t with errors := true }, s, .err .parse)
+      | .protoErr => (t, s, .err .protocol)
       | .unwatch => ({ t with queue := t.queue ++ [B.unwatchCmd] }, s, .queued)
       | .cmd c => ({ t with queue := t.queue ++ [c] }, s, .queued)
     else
@@ -166,6 +172,20 @@ def step [DecidableEq ρ] (B : Backend σ κ γ ρ) (sched : List (List γ)) (t 
       | .unknown c => (t, (B.exec s c).1, .plain (B.exec s c).2)
       | .cmd c => (t, (B.exec s c).1, .plain (B.exec s c).2)
       | .parseErr => (t, s, .err .parse)
+      | .protoErr => (t, s, .err .protocol)
+
+/-- the machine after the proposed `fix:` commit (branch fixes-txn-s3): a protocol error between
+    MULTI and EXEC flags the transaction, as an arity error does (`transaction_errors = true` in
+    the `CommandResult::ParseError` branch of `run`); everything else is `step` -/
+def stepFixed [DecidableEq ρ] (B : Backend σ κ γ ρ) (sched : List (List γ)) (t : ConnTxn κ γ ρ) (s : σ) :
+    Input κ γ → ConnTxn κ γ ρ × σ × Reply ρ
+  | .protoErr => if t.inTxn then ({ t with errors := true }, s, .err .protocol) else (t, s, .err .protocol)
+  | i => step B sched t s i
+
+/-- `protoFlags = false`: the current tree; `true`: the tree with the proposed fix -/
+def stepWith [DecidableEq ρ] (protoFlags : Bool) (B : Backend σ κ γ ρ) (sched : List (List γ))
+    (t : ConnTxn κ γ ρ) (s : σ) (i : Input κ γ) : ConnTxn κ γ ρ × σ × Reply ρ :=
+  if protoFlags then stepFixed B sched t s i else step B sched t s i
 
 /-- a trace of the modelled connection: each input with the schedule of the other clients
     during it -/
@@ -196,6 +216,84 @@ def serialExec [DecidableEq ρ] (B : Backend σ κ γ ρ) (t : ConnTxn κ γ ρ)
   else
     let m := runSeq B s1 t.queue
     (foreign B m.1 post, .results m.2)
+
+/-! ## the decision table of the connection-level machine, as data
+
+  `tableReply` / `tableNext` give, for every (state class × input class) pair, the class of the
+  reply and the flags of the next state.  `Props/C05.lean` proves that `step` IS this table
+  (`step_table`); the driver prints it (`TBL` op) and the harness compares it cell by cell with
+  the table it extracts from the real handler by driving every cell. -/
+
+inductive ICls where
+  | multi | exec | discard | unwatch | watch | cmd | unknown | chanStub | connLocal | parseErr
+  | protoErr
+  deriving DecidableEq, Repr
+
+inductive RCls where
+  | ok | queued
+  | err (e : ConnErr)
+  | nil
+  | results (n : Nat)
+  | plain
+  deriving DecidableEq, Repr
+
+def icls : Input κ γ → ICls
+  | .multi => .multi | .exec => .exec | .discard => .discard | .unwatch => .unwatch
+  | .watch _ => .watch | .cmd _ => .cmd | .unknown _ => .unknown | .chanStub _ => .chanStub
+  | .connLocal _ => .connLocal | .parseErr => .parseErr | .protoErr => .protoErr
+
+def rcls : Reply ρ → RCls
+  | .ok => .ok | .queued => .queued | .err e => .err e | .nil => .nil
+  | .results rs => .results rs.length | .plain _ => .plain
+
+/-- `watchFails` = the watch comparison of this EXEC fails (only consulted for EXEC inside
+    MULTI without the error flag); `qlen` = length of the queue -/
+def tableReply (inTxn errors watchFails : Bool) (qlen : Nat) : ICls → RCls
+  | .exec =>
+    if inTxn then (if errors then .err .execAbort else if watchFails then .nil else .results qlen)
+    else .err .execWithoutMulti
+  | .discard => if inTxn then .ok else .err .discardWithoutMulti
+  | .multi => if inTxn then .err .nestedMulti else .ok
+  | .watch => if inTxn then .err .watchInMulti else .ok
+  | .unwatch => if inTxn then .queued else .ok
+  | .cmd => if inTxn then .queued else .plain
+  | .connLocal => if inTxn then .queued else .plain
+  | .unknown => if inTxn then .err .unknownInMulti else .plain
+  | .chanStub => if inTxn then .err .noperm else .plain
+  | .parseErr => .err .parse
+  | .protoErr => .err .protocol
+
+/-- (in_transaction, transaction_errors) after the input -/
+def tableNext (inTxn errors : Bool) : ICls → Bool × Bool
+  | .exec => if inTxn then (false, false) else (inTxn, errors)
+  | .discard => if inTxn then (false, false) else (inTxn, errors)
+  | .multi => if inTxn then (inTxn, errors) else (true, false)
+  | .unknown => if inTxn then (true, true) else (inTxn, errors)
+  | .chanStub => if inTxn then (true, true) else (inTxn, errors)
+  | .parseErr => if inTxn then (true, true) else (inTxn, errors)
+  | _ => (inTxn, errors)
+
+/-- queue length after the input -/
+def tableQueue (inTxn : Bool) (qlen : Nat) : ICls → Nat
+  | .exec => if inTxn then 0 else qlen
+  | .discard => if inTxn then 0 else qlen
+  | .multi => if inTxn then qlen else 0
+  | .unwatch => if inTxn then qlen + 1 else qlen
+  | .cmd => if inTxn then qlen + 1 else qlen
+  | .connLocal => if inTxn then qlen + 1 else qlen
+  | _ => qlen
+
+/-- what happens to the watch list: kept, cleared, or extended -/
+inductive WAct where
+  | keep | clear | extend
+  deriving DecidableEq, Repr
+
+def tableWatch (inTxn : Bool) : ICls → WAct
+  | .exec => if inTxn then .clear else .keep
+  | .discard => if inTxn then .clear else .keep
+  | .unwatch => if inTxn then .keep else .clear
+  | .watch => if inTxn then .keep else .extend
+  | _ => .keep
 
 /-! ## the executor-level machine (`transaction_ops.rs`) -/
 
@@ -307,6 +405,51 @@ def xrun [DecidableEq κ] [DecidableEq ν] (X : XBackend σ κ γ ρ ν) (okR : 
     let q := xrun X okR r.1 r.2.1 rest
     (q.1, q.2.1, r.2.2 :: q.2.2)
 
+/-! ## one executor shared by several clients
+
+  `SimulationHarness::execute(client_id, cmd)` (`simulator/harness.rs`) and
+  `RedisServer::handle_event` (`redis/server.rs`) hand the commands of ALL their clients to ONE
+  `CommandExecutor`: the transaction state of `transaction_ops.rs` is per executor, the client
+  id is not an input of it. -/
+
+def xsharedRun [DecidableEq κ] [DecidableEq ν] (X : XBackend σ κ γ ρ ν) (okR : ρ) :
+    ExTxn κ γ ν → σ → List (Nat × XInput κ γ) → ExTxn κ γ ν × σ × List (Nat × XReply ρ)
+  | t, s, [] => (t, s, [])
+  | t, s, e :: rest =>
+    let r := xstep X okR t s e.2
+    let q := xsharedRun X okR r.1 r.2.1 rest
+    (q.1, q.2.1, (e.1, r.2.2) :: q.2.2)
+
+/-! ## the replicated front end (`ReplicatedShardedState::execute`, `bin/server_persistent.rs`)
+
+  `handle_connection` of the persistent server hands EVERY parsed command to
+  `ReplicatedShardedState::execute`; there is no connection-level transaction state.  MULTI, EXEC,
+  DISCARD and UNWATCH name no key (`get_primary_key = None`) and fall into `execute_global`'s
+  `_ => "ERR unknown command"`; `WATCH k …` names its first key and is executed by that shard's
+  executor (`execute_watch`: +OK; the snapshot is never looked at again because no EXEC ever
+  reaches a shard); every other command is executed at once. -/
+
+inductive RReply (ρ : Type) where
+  | ok
+  | errUnknown                 -- "ERR unknown command"
+  | plain (r : ρ)
+  deriving DecidableEq, Repr
+
+def rstep (exec : σ → γ → σ × ρ) (s : σ) : XInput κ γ → σ × RReply ρ
+  | .multi => (s, .errUnknown)
+  | .exec => (s, .errUnknown)
+  | .discard => (s, .errUnknown)
+  | .unwatch => (s, .errUnknown)
+  | .watch _ => (s, .ok)
+  | .cmd c => ((exec s c).1, .plain (exec s c).2)
+
+def rrun (exec : σ → γ → σ × ρ) : σ → List (XInput κ γ) → σ × List (RReply ρ)
+  | s, [] => (s, [])
+  | s, i :: rest =>
+    let r := rstep exec s i
+    let q := rrun exec r.1 rest
+    (q.1, r.2 :: q.2)
+
 end Txn
 
 /-! ## a tiny concrete store: strings and lists -/
@@ -344,6 +487,7 @@ inductive Rep where
   | int (i : Int)
   | bulk (b : Option Bytes)
   | arr (l : List Bytes)
+  | marr (l : List (Option Bytes))     -- MGET: one bulk or nil per key
   | err (e : KErr)
   deriving DecidableEq, Repr
 
@@ -378,6 +522,9 @@ inductive Cmd where
                                          --   are not modelled: the driver passes the observation)
   | evict (k : Nat)                      -- not a command: the key's deadline passed and the shard
                                          --   evicted it (`set_time` before the next command)
+  | mset (ps : List (Nat × Bytes))        -- MSET k v [k v …]: fanned out per shard (`BatchSet`)
+  | mget (ks : List Nat)                 -- MGET k [k …]: fanned out per shard (`BatchGet`)
+  | delm (ks : List Nat)                 -- DEL k k' [k'' …] (two or more keys: fanned out per shard)
   | ping
   | unwatch
   | unknown                              -- `Command::Unknown(name)`
@@ -526,6 +673,18 @@ def execWith (localFixed : Bool) (s : Store) : Cmd → Store × Rep
   | .expire k => (s, .int (if (NMap.get s k).isSome then 1 else 0))
   | .persist k had => (s, .int (if (NMap.get s k).isSome && had then 1 else 0))
   | .evict k => (NMap.erase k s, .simple .ok)
+  | .mset ps => (ps.foldl (fun s p => NMap.insert p.1 (.str p.2) s) s, .simple .ok)
+  | .mget ks =>
+    (s, .marr (ks.map (fun k =>
+      match NMap.get s k with
+      | some (.str b) => some b
+      | _ => none)))
+  | .delm ks =>
+    let r := ks.foldl (fun (a : Store × Int) k =>
+      match NMap.get a.1 k with
+      | some _ => (NMap.erase k a.1, a.2 + 1)
+      | none => a) (s, 0)
+    (r.1, .int r.2)
   | .ping => (s, .simple .pong)
   | .unwatch => (s, .simple .ok)
   | .unknown => (s, .err .unknownCmd)
